@@ -1776,10 +1776,18 @@ func (c *evalCtx) comparisons() {
 	}
 	// (d) decimal comparisons: Compare(lhs, rhs) against a constant
 	decAllowed := map[string]func(op token.Token, k int64) bool{
-		"lessThan":           func(op token.Token, k int64) bool { return (op == token.EQL && k == -1) || (op == token.LSS && k == 0) || (op == token.LEQ && k == -1) },
-		"lessThanOrEqual":    func(op token.Token, k int64) bool { return (op == token.LEQ && k == 0) || (op == token.LSS && k == 1) || (op == token.NEQ && k == 1) },
-		"greaterThan":        func(op token.Token, k int64) bool { return (op == token.EQL && k == 1) || (op == token.GTR && k == 0) || (op == token.GEQ && k == 1) },
-		"greaterThanOrEqual": func(op token.Token, k int64) bool { return (op == token.GEQ && k == 0) || (op == token.GTR && k == -1) || (op == token.NEQ && k == -1) },
+		"lessThan": func(op token.Token, k int64) bool {
+			return (op == token.EQL && k == -1) || (op == token.LSS && k == 0) || (op == token.LEQ && k == -1)
+		},
+		"lessThanOrEqual": func(op token.Token, k int64) bool {
+			return (op == token.LEQ && k == 0) || (op == token.LSS && k == 1) || (op == token.NEQ && k == 1)
+		},
+		"greaterThan": func(op token.Token, k int64) bool {
+			return (op == token.EQL && k == 1) || (op == token.GTR && k == 0) || (op == token.GEQ && k == 1)
+		},
+		"greaterThanOrEqual": func(op token.Token, k int64) bool {
+			return (op == token.GEQ && k == 0) || (op == token.GTR && k == -1) || (op == token.NEQ && k == -1)
+		},
 	}
 	fn := p.fn(pEval, "newExtensionEval")
 	if fn == nil {
